@@ -185,6 +185,46 @@ def build_script(rng, i, quick):
     return g.script(), {"sweeps": sweeps, "plain": plain, "truth": truth, "insider": insider, "replays": replays, "ctx_op": ctx_op, "dumps": dumps, "members": members, "sender": snd}
 
 
+def late_reuse_script(rng, i):
+    """A message that arrives late, after its sender's leaf has changed hands: B encrypts in epoch
+    n, B is removed, a new member takes B's leaf, then the message reaches A.  It may be refused;
+    if it is accepted it must be reported as B's (never as the new owner's)."""
+    members = [{"name": n, "retention": 5} for n in "ABCDE"]
+    ops = [{"op": "create", "who": "A"}, {"op": "kp", "who": "B", "id": "kB"}, {"op": "kp", "who": "C", "id": "kC"},
+           {"op": "commit", "who": "A", "id": "c0", "add": ["kB", "kC"]}, {"op": "apply", "who": "A"},
+           {"op": "join", "who": "B", "welcome_any": "c0"}, {"op": "join", "who": "C", "welcome_any": "c0"}]
+    victim = rng.choice(["B", "C"])
+    other = "C" if victim == "B" else "B"
+    for m in "ABC":
+        ops.append({"op": "opts", "who": m, "encrypt_controls": rng.chance(1, 2), "path_required": rng.chance(1, 2), "tree_ext": True})
+    ops.append({"op": "app", "who": victim, "id": "late1", "data": "b0b0", "aad": "aa"})
+    ops.append({"op": "propose", "who": victim, "kind": "gce", "id": "latep", "ext_data": "01"})
+    # the victim leaves
+    ops.append({"op": "commit", "who": "A", "id": "c1", "remove_names": [victim]})
+    ops.append({"op": "deliver", "to": other, "msg": "c1"})
+    ops.append({"op": "apply", "who": "A"})
+    checks = []
+    stage = rng.choice(["blank", "reused", "reused"])
+    if stage == "reused":
+        newc = rng.choice(["D", "E"])
+        ops.append({"op": "kp", "who": newc, "id": "kN"})
+        c = rng.choice(["A", other])
+        o = other if c == "A" else "A"
+        ops.append({"op": "commit", "who": c, "id": "c2", "add": ["kN"]})
+        ops.append({"op": "deliver", "to": o, "msg": "c2"})
+        ops.append({"op": "apply", "who": c})
+        ops.append({"op": "join", "who": newc, "welcome_any": "c2"})
+        if rng.chance(1, 2):
+            ops.append({"op": "commit", "who": newc, "id": "c3"})
+            for m in ("A", other):
+                ops.append({"op": "deliver", "to": m, "msg": "c3"})
+            ops.append({"op": "apply", "who": newc})
+    for r in ("A", other):
+        ops.append({"op": "deliver", "to": r, "msg": "late1"})
+        checks.append((len(ops) - 1, victim))
+    return {"name": f"c03-late{i}", "suite": 1, "members": members, "ops": ops}, checks
+
+
 def cross_group_script(rng, i):
     """Two groups with disjoint members in one world: traffic of one is refused by the other."""
     members = [{"name": n} for n in "ABCDEFGHX"]
@@ -249,7 +289,8 @@ def main(run, args):
     quick = run.tier == "quick"
     items = [build_script(rng, i, quick) for i in range(3 if quick else 24)]
     xs = [cross_group_script(rng, i) for i in range(1 if quick else 4)]
-    recs = run_scripts([x[0] for x in items] + [x[0] for x in xs], timeout=3000)
+    lates = [late_reuse_script(rng, i) for i in range(8 if quick else 60)]
+    recs = run_scripts([x[0] for x in items] + [x[0] for x in xs] + [x[0] for x in lates], timeout=3000)
     failing = []
     totals = {k: {"variants": 0, "errors": {}, "accepted_same_effect": 0} for k in KINDS}
     n_truth = n_insider = n_replay = n_cross = 0
@@ -323,7 +364,23 @@ def main(run, args):
                     if r.get("op") == "sigkey" and r.get("who") == sender:
                         pk = r["info"]["pk"]
                 tie_cases.append({"script": sc["name"], "msg": mid, "hex": d["hex"], "ctx": cr["ctx"], "mkey": cr["mkey"], "pk": pk})
-    for (sc, cross), rs in zip(xs, recs[len(items):]):
+    n_late = 0
+    for (sc, checks), rs in zip(lates, recs[len(items) + len(xs):]):
+        byi = {r["i"]: r for r in rs if "i" in r}
+        ck = {k for k, _ in checks}
+        setup_bad = [r for r in rs if (r.get("ok") is False or r.get("crash")) and r.get("i") not in ck]
+        if setup_bad:
+            failing.append({"what": "setup of a late-delivery history failed", "script": sc["name"], "record": setup_bad[0], "op": sc["ops"][setup_bad[0].get("i", 0)]})
+            continue
+        for (k, true_sender) in checks:
+            r = byi.get(k, {})
+            n_late += 1
+            if r.get("err") == "PANIC":
+                failing.append({"what": "PANIC on a late message", "script": sc["name"], "op": sc["ops"][k]})
+            elif r.get("ok") and (r.get("info") or {}).get("sender_name") != true_sender:
+                failing.append({"what": "a late message whose sender's leaf has changed hands was accepted and attributed to the new owner of the leaf", "script": sc["name"], "op": sc["ops"][k],
+                                "reported": (r.get("info") or {}).get("sender_name"), "true_sender": true_sender})
+    for (sc, cross), rs in zip(xs, recs[len(items):len(items) + len(xs)]):
         byi = {r["i"]: r for r in rs if "i" in r}
         crossidx = {k for k, _, _ in cross}
         setup_bad = [r for r in rs if (r.get("ok") is False or r.get("crash")) and r.get("i") not in crossidx]
@@ -424,6 +481,7 @@ def main(run, args):
         "truthful_reports_checked": n_truth,
         "insider_messages": n_insider,
         "replays": n_replay,
+        "late_messages_after_leaf_changed_hands": n_late,
         "cross_group_deliveries": n_cross,
         "framing_cases_in_coq": coq_cases,
         "signatures_checked_over_model_bytes": sig_checked,
